@@ -320,6 +320,19 @@ def run(rep: Report, tier: str):
             return all(fresh_container(x, f) for x in v.values)
         return False
 
+    # the base class supplies append / extend / pop / remove / clear / reverse / += ...: collections.abc.MutableSequence
+    # implements every one of them through insert / __setitem__ / __delitem__, which Pickled overrides (and which reset the
+    # caches).  A concrete container base (list, UserList, deque) implements them directly on its own storage: those edits
+    # never reach the overrides.
+    CONCRETE = {"list", "builtins.list", "collections.UserList", "UserList", "collections.deque", "deque", "array.array"}
+    pk_cls = repo.cls("fickling.fickle.Pickled")
+    ext = [b for b in repo.mro(pk_cls) if not b.startswith("fickling.")]
+    conc = [b for b in ext if b in CONCRETE or b.split("[")[0] in CONCRETE]
+    if conc:
+        rep.bad("C14.single-writer", pk_cls.qualname, f"base-mutators-bypass-overrides:{conc[0]}", f"Pickled derives from {conc[0]}, whose append/extend/pop/remove/clear/reverse/sort/+= work directly on its own storage instead of going through the overridden insert/__setitem__/__delitem__: edits made through them leave the cached program and import/call summaries stale", pk_cls.module.relpath, pk_cls.node.lineno)
+        return
+    if any(b.split("[")[0] in ("collections.abc.MutableSequence", "typing.MutableSequence") for b in ext):
+        rep.ok("C14.single-writer", pk_cls.qualname, "mixin mutators come from collections.abc.MutableSequence (all routed through insert/__setitem__/__delitem__)", f"{pk_cls.module.relpath}:{pk_cls.node.lineno}")
     n_owned = 0
     for c in classes:
         for name, fs in c.methods.items():
